@@ -363,9 +363,11 @@ _SEEN: list = []       # (case, result) of every implementation run, for the ora
 
 
 def impl14_recorded(case):
-    r = impl14(case)
+    return impl14(case)
+
+
+def observe14(case, r):       # runs in the parent process (Batch.observe): the pairs survive the worker pool
     _SEEN.append((case, r))
-    return r
 
 
 def extra(ctx):
@@ -439,7 +441,7 @@ def batches(ctx):
     yield Batch(
         name="layout", header=HEADER, run="run14", eqb="eqb14",
         ty_in="bool * params * stree * rtree * list (Q * Q)", ty_out="out14",
-        cases=cases, impl=impl14_recorded, enc_in=enc_in14, enc_out=enc_out14,
+        cases=cases, impl=impl14_recorded, observe=observe14, enc_in=enc_in14, enc_out=enc_out14,
         oracle=oracle14, nontrivial=nontrivial14, exhaustive=False, shard=120,
         describe=(f"{n_small} = every valid reconciliation of every input up to 3x3 leaves; all (capped) valid reconciliations of sampled "
                   "4-5 leaf inputs; random ones up to 10 object leaves; both orientations; stub sizes integers/halves in [1,100]; all numeric "
